@@ -791,6 +791,10 @@ M('C04', 'key-elif-or', PGP, """        if self.fingerprint.keyid not in message
         elif not mine and not self._children:
             raise PGPError("Cannot decrypt the provided message with this key")
 """, 'C04.6')
+T('C04', 'twin-keyblob-derive-kw', FL, "        sessionkey = self.s2k.derive_key(passphrase)\n        del passphrase\n\n        # attempt to decrypt this key", "        sessionkey = self.s2k.derive_key(passphrase=passphrase)\n        del passphrase\n\n        # attempt to decrypt this key")
+M('C04', 'keyblob-derive-empty', FL, "        sessionkey = self.s2k.derive_key(passphrase)\n        del passphrase\n\n        # attempt to decrypt this key", "        sessionkey = self.s2k.derive_key('')\n        del passphrase\n\n        # attempt to decrypt this key", 'C04.4')
+T('C04', 'twin-pkesk-sum-loop', PK, "        if not sum(symkey) % 65536 == checksum:  # pragma: no cover", "        total = 0\n        for octet in symkey:\n            total += octet\n\n        if total % 65536 != checksum:  # pragma: no cover")
+M('C04', 'pkesk-sum-loop-skips-first', PK, "        if not sum(symkey) % 65536 == checksum:  # pragma: no cover", "        total = 0\n        for octet in symkey[1:]:\n            total += octet\n\n        if total % 65536 != checksum:  # pragma: no cover", 'C04.3')
 
 # =============================================================================================== C03
 M('C03', 'checksum-65535', PK, "        m += self.int_to_bytes(sum(bytearray(symkey)) % 65536, 2)", "        m += self.int_to_bytes(sum(bytearray(symkey)) % 65535, 2)", 'C03.1')
